@@ -8,7 +8,9 @@ import (
 	"go/types"
 
 	"golang.org/x/tools/go/packages"
+	"golang.org/x/tools/go/ssa"
 
+	"jsverif/internal/absint"
 	"jsverif/internal/core"
 )
 
@@ -30,6 +32,30 @@ func cmdDump(args []string) int {
 			}
 			return true
 		})
+	case "paths":
+		inl := map[string]bool{}
+		for _, a := range args[2:] {
+			inl[a] = true
+		}
+		in := absint.New(absint.Config{InModule: p.FuncInModule, MaxDepth: 6, Inline: func(f *ssa.Function) bool { return inl[core.FuncName(f)] }})
+		for _, f := range p.ScopeFuncs() {
+			if core.FuncName(f) != args[1] {
+				continue
+			}
+			var as []absint.Val
+			for _, pr := range f.Params {
+				if _, ok := pr.Type().Underlying().(*types.Pointer); ok {
+					as = append(as, absint.Ptr{Base: pr.Name()})
+				} else {
+					as = append(as, absint.Param(pr.Name()))
+				}
+			}
+			outs := in.Run(f, as, nil)
+			fmt.Printf("== %s: %d paths\n", args[1], len(outs))
+			for _, o := range outs {
+				fmt.Println("  ", absint.PathString(o))
+			}
+		}
 	case "ssa":
 		for _, f := range p.ScopeFuncs() {
 			if core.FuncName(f) == args[1] {
